@@ -47,16 +47,16 @@ type gen struct {
 	cc        *caseCtx
 	r         *rand.Rand
 	contracts []*contract
-	pend      map[common.Hash]pending
 	wasmCode  map[string][]byte
 	wnonce    int
 	focus     *contract // a voting contract the guided calls concentrate on for a while
+	lowGas    bool      // block mode, inside a multi-tx block: many executions that run out of gas after writing
 	jump      uint64    // shadow mode: extra blocks the next fabricated header skips
 	lateTerm  *contract // voting contract to terminate after the jump
 }
 
 func newGen(cc *caseCtx) *gen {
-	g := &gen{cc: cc, r: cc.r, pend: map[common.Hash]pending{}, wasmCode: map[string][]byte{}}
+	g := &gen{cc: cc, r: cc.r, wasmCode: map[string][]byte{}}
 	g.wasmCode["erc20"], _ = testdata.Erc20()
 	g.wasmCode["inc"], _ = testdata.IncFunc()
 	g.wasmCode["sum"], _ = testdata.SumFunc()
@@ -448,6 +448,9 @@ func (g *gen) next(st *appstate.AppState, hdr *types.Header) (txInfo, bool) {
 	if g.cc.cs.Fpg != "" {
 		budget = int64(r.Intn(1500))
 	}
+	if g.cc.cs.Mode == "block" && g.lowGas && !big0 && r.Intn(2) == 0 {
+		budget = int64(150 + r.Intn(1200)) // fails somewhere after the first writes
+	}
 	if lateBudget && r.Intn(4) != 0 {
 		budget = int64(200 + r.Intn(3300)) // runs out somewhere inside the termination
 	}
@@ -481,10 +484,8 @@ func (g *gen) next(st *appstate.AppState, hdr *types.Header) (txInfo, bool) {
 			panic(err)
 		}
 		ti.Tx = stx
-		g.pend[stx.Hash()] = pd
-	} else {
-		g.pend[common.Hash{}] = pd // chain mode: one tx in flight
 	}
+	ti.pd = pd
 	return ti, true
 }
 
@@ -603,15 +604,7 @@ func (g *gen) contractAddr(st *appstate.AppState, ti txInfo) common.Address {
 	return common.Address{}
 }
 
-func (g *gen) take(ti txInfo) pending {
-	k := common.Hash{}
-	if g.cc.cs.Mode == "shadow" {
-		k = ti.Tx.Hash()
-	}
-	pd := g.pend[k]
-	delete(g.pend, k)
-	return pd
-}
+func (g *gen) take(ti txInfo) pending { return ti.pd }
 
 func (g *gen) rejected(ti txInfo) { g.take(ti) }
 
